@@ -6,7 +6,7 @@
    (Gen/GenC02.v). *)
 From Coq Require Import String.
 From Coq Require Import ZArith List Bool.
-From LasV Require Import Lib.Base Gen.GenC02 Spec.AsprsPoints Model.PointLayout.
+From LasV Require Import Lib.Base Gen.GenDims Gen.GenC02 Spec.AsprsPoints Model.PointLayout.
 Import ListNotations.
 Open Scope list_scope.
 Open Scope Z_scope.
@@ -51,3 +51,63 @@ Definition append_session (file : list Z) (off n ps minor nev sfe : Z) (chunks :
 
 (* assignment to the dimensions of point [i] through the memory map: the record's bytes are replaced in place *)
 Definition edit_record (file : list Z) (off ps i : Z) (rec : list Z) : list Z := write_at file (off + i * ps) rec.
+
+(* ------------------------------------------------------------------------------------------ *)
+(* a record handed to a header that was not made from it                                        *)
+(* ------------------------------------------------------------------------------------------ *)
+(* A record carries the dimensions its array was allocated with (its bytes are laid out by THEM); a header declares its own
+   list in the Extra Bytes VLR.  LasWriter.write_points, LasAppender.append_points, LasData(header, points) and the
+   LasData.points setter take the record only when PointFormat.__eq__ holds between the two (Gen/GenC02.v point_format_eq,
+   dim_info_eq, handover_guards: translated from the source on every run) and then store the record's bytes as they are. *)
+Definition dim_name (d : dim_info) : string :=
+  let '(name, _, _, _, _, _, _, _) := d in name.
+Definition dim_shape (d : dim_info) : string * Z * Z * Z :=
+  let '(name, kind, num_bits, num_elements, _, _, _, _) := d in (name, kind, num_bits, num_elements).
+Definition dim_offsets (d : dim_info) : option (list Z) := let '(_, _, _, _, _, _, offsets, _) := d in offsets.
+Definition dim_scales (d : dim_info) : option (list Z) := let '(_, _, _, _, _, _, _, scales) := d in scales.
+
+(* the descriptor LasHeader._sync_extra_bytes_vlr declares for a dimension: the data_type of its numpy type in the writer's
+   table (Gen/GenDims.v extra_dim_types), data_type 0 with options = number of bytes for more than 3 unsigned bytes *)
+Definition eb_of_shape (s : string * Z * Z * Z) : option eb_desc :=
+  let '(name, kind, num_bits, num_elements) := s in
+  match find (fun kl => fst kl =? kind) dimension_kind_letters with
+  | Some (_, letter) =>
+      if (0 <? num_elements) && (num_bits mod (8 * num_elements) =? 0) then
+        let sz := num_bits / (8 * num_elements) in
+        if (3 <? num_elements) && String.eqb letter "u" && (sz =? 1) then
+          (if num_elements <? 256 then Some (name, 0, num_elements) else None)
+        else match find (fun r => let '(_, k, s, c) := r in String.eqb k letter && (s =? sz) && (c =? num_elements)) extra_dim_types with
+             | Some (id, _, _, _) => Some (name, id, 0)
+             | None => None
+             end
+      else None
+  | None => None
+  end.
+Definition eb_of_dim (d : dim_info) : option eb_desc := eb_of_shape (dim_shape d).
+Definition ebs_of_dims (ds : list dim_info) : option (list eb_desc) := opt_all (map eb_of_dim ds).
+
+(* numerically the same offsets and scales (np.all(a == b)), or none on both sides *)
+Definition same_scaling (x y : dim_info) : Prop :=
+  np_all_eq (dim_offsets x) (dim_offsets y) = true /\ np_all_eq (dim_scales x) (dim_scales y) = true.
+
+(* the hand-over: [points.point_format != header.point_format] is evaluated on the record's point format *)
+Definition handover_accepts (header_id : Z) (header_dims : list dim_info) (record_id : Z) (record_dims : list dim_info) : bool :=
+  point_format_eq record_id header_id record_dims header_dims.
+
+(* ------------------------------------------------------------------------------------------ *)
+(* assignments into the elements of an extra dimension                                          *)
+(* ------------------------------------------------------------------------------------------ *)
+(* the stored values of one extra dimension: one row per point, one entry per element.  Whatever the key of the assignment
+   (the whole dimension, [:, k], [mask, k], [index list, k], [i, k], [slice, slice], [i], a sub-view) and the form of the value,
+   an assignment names a set of (point, element) positions and a stored value for each; nothing else changes. *)
+Definition upd {A} (l : list A) (i : nat) (v : A) : list A :=
+  firstn i l ++ match skipn i l with [] => [] | _ :: r => v :: r end.
+Definition grid := list (list Z).
+Definition get_elem (g : grid) (i k : nat) : Z := nth k (nth i g []) 0.
+Definition set_elem (g : grid) (i k : nat) (v : Z) : grid := upd g i (upd (nth i g []) k v).
+Fixpoint assign_elems (g : grid) (sel : list (nat * nat * Z)) : grid :=
+  match sel with
+  | [] => g
+  | (i, k, v) :: r => assign_elems (set_elem g i k v) r
+  end.
+Definition sel_pos (e : nat * nat * Z) : nat * nat := fst e.
